@@ -13,6 +13,9 @@ func normalizeParty(p *org.Party) {
 	// Pending removal after migrations completed.
 	idents := make([]*org.Identity, 0)
 	for _, v := range p.Identities {
+		if v == nil {
+			continue
+		}
 		if v.Key.In(migratedExtensionKeys...) {
 			if p.Ext == nil {
 				p.Ext = make(tax.Extensions)
